@@ -223,6 +223,33 @@ where
         Ok(())
     }
 
+    /// Delete the events of a single event log that were
+    /// inserted after the most recent event with the given
+    /// commit hash.
+    ///
+    /// Event tables are shared between accounts and folders and
+    /// commit hashes are not unique (identical events have identical
+    /// hashes) so rows must be selected by owner and position.
+    pub fn delete_after(
+        &self,
+        log_type: EventLogType,
+        account_or_folder_id: i64,
+        commit_hash: &CommitHash,
+    ) -> Result<(), SqlError> {
+        let table: EventTable = log_type.into();
+        let query = sql::Delete::new()
+            .delete_from(table.as_str())
+            .where_clause(&format!("{}=?1", table.id_column()))
+            .where_and(&format!(
+                "event_id > (SELECT MAX(event_id) FROM {} WHERE {}=?1 AND commit_hash=?2)",
+                table.as_str(),
+                table.id_column()
+            ));
+        let mut stmt = self.conn.prepare_cached(&query.as_string())?;
+        stmt.execute((account_or_folder_id, commit_hash.as_ref()))?;
+        Ok(())
+    }
+
     /// Insert events into an event log table.
     pub fn insert_events(
         &self,
